@@ -180,6 +180,8 @@ def make_torch_function(name, impl):
     def f(E, *args, **kwargs):
         from .tm_tensor import collect_wrappers
 
+        # recorded for the callers' contracts (with which arguments the functional API was reached)
+        E.ps.setdefault("functional_log", []).append((name, tuple(args), dict(kwargs)))
         ws = collect_wrappers([list(args), kwargs], [])
         if ws and not E.ps.get("tf_disabled"):
             for w in ws:
